@@ -1,0 +1,465 @@
+//! C09 adapter: several real `TransportService`s (one per protocol, keep-alive `Yes` or `No`)
+//! sharing real `ProtocolSet`s (one per connection, standing for the connection task) under
+//! LOGICAL time: the adapter's current-thread runtime starts with a paused tokio clock which only
+//! moves by `adv <ms>`; `crate::verif::logical_now` maps `std::time::Instant` reads of the
+//! keep-alive tracker onto that clock.
+//!
+//! Real code exercised: `ProtocolSet::{new, report_connection_established,
+//! report_connection_closed, report_substream_open, report_substream_open_failure, try_get_permit,
+//! poll_next}`, `ConnectionHandle`/`Permit`, `TransportService::{open_substream, poll_next}`,
+//! `KeepAliveTracker`. Mimicked by the adapter (it plays the TCP connection task): the permit rule
+//! of `handle_negotiated_substream` (`lifetime_permit = keep_alive.then(|| permit.clone())`).
+//!
+//! Operations: `cfg <T ms> <Y|N>...` | `est <p> <conn>` | `closed <p> <conn>` | `open <i> <p>` |
+//! `recv <conn>` | `subopen <conn> <sid>` | `subfail <conn> <sid>` | `subin <conn> <i>` |
+//! `dropsub <i> <k>` | `adv <ms>` | `next`.
+
+use super::verif_c08::{id_num, make_service, show_connections, show_event, StreamMint};
+use super::*;
+use crate::{
+    codec::ProtocolCodec,
+    protocol::{Direction, Permit, ProtocolCommand, ProtocolSet},
+    substream::Substream,
+    transport::manager::{
+        handle::InnerTransportManagerCommand, ProtocolContext, TransportManagerEvent,
+    },
+    verif::{peer, VerifBox},
+};
+
+use std::{
+    collections::BTreeMap,
+    panic::{catch_unwind, AssertUnwindSafe},
+    sync::atomic::AtomicBool,
+};
+
+struct FlagWaker(AtomicBool);
+
+impl std::task::Wake for FlagWaker {
+    fn wake(self: Arc<Self>) {
+        self.0.store(true, Ordering::SeqCst);
+    }
+    fn wake_by_ref(self: &Arc<Self>) {
+        self.0.store(true, Ordering::SeqCst);
+    }
+}
+
+struct Proto {
+    svc: TransportService,
+    tx: Sender<InnerTransportEvent>,
+    _mgr_rx: Receiver<InnerTransportManagerCommand>,
+    ka: SubstreamKeepAlive,
+    name: ProtocolName,
+    /// Substreams the protocol received and still holds.
+    subs: Vec<Substream>,
+}
+
+struct Task {
+    peer: u64,
+    set: ProtocolSet,
+    /// Commands received, negotiation pending: sid -> (protocol, permit, keep-alive).
+    nego: HashMap<usize, (ProtocolName, Permit, SubstreamKeepAlive)>,
+}
+
+pub struct KeepAliveBox {
+    rt: tokio::runtime::Runtime,
+    protos: Vec<Proto>,
+    counter: Arc<AtomicUsize>,
+    tasks: BTreeMap<usize, Task>,
+    used: HashSet<usize>,
+    mgr_tx: Sender<TransportManagerEvent>,
+    mgr_rx: Receiver<TransportManagerEvent>,
+    mint: Option<StreamMint>,
+    poisoned: bool,
+}
+
+const NAMES: [&str; 4] = ["/verif/0", "/verif/1", "/verif/2", "/verif/3"];
+
+impl KeepAliveBox {
+    pub fn new() -> Self {
+        let (mgr_tx, mgr_rx) = channel(4096);
+        Self {
+            rt: tokio::runtime::Builder::new_current_thread()
+                .enable_time()
+                .start_paused(true)
+                .build()
+                .expect("runtime"),
+            protos: Vec::new(),
+            counter: Arc::new(AtomicUsize::new(0)),
+            tasks: BTreeMap::new(),
+            used: HashSet::new(),
+            mgr_tx,
+            mgr_rx,
+            mint: None,
+            poisoned: false,
+        }
+    }
+
+    fn protocols(&self) -> HashMap<ProtocolName, ProtocolContext> {
+        self.protos
+            .iter()
+            .map(|p| {
+                (
+                    p.name.clone(),
+                    ProtocolContext {
+                        codec: ProtocolCodec::Identity(32),
+                        tx: p.tx.clone(),
+                        fallback_names: Vec::new(),
+                        keep_alive: p.ka,
+                    },
+                )
+            })
+            .collect()
+    }
+
+    /// Poll protocol `i`'s service until a poll is `Pending` without having woken itself.
+    fn drain(&mut self, i: usize) -> Result<Vec<String>, (Vec<String>, String)> {
+        let flag = Arc::new(FlagWaker(AtomicBool::new(false)));
+        let waker = std::task::Waker::from(flag.clone());
+        let mut out = Vec::new();
+        let mut polls = 0usize;
+        loop {
+            polls += 1;
+            if polls > 20_000 {
+                // the service keeps waking itself without ever becoming idle
+                return Err((out, "livelock: poll_next never settles".into()));
+            }
+            flag.0.store(false, Ordering::SeqCst);
+            let proto = &mut self.protos[i];
+            let polled = catch_unwind(AssertUnwindSafe(|| {
+                let mut cx = Context::from_waker(&waker);
+                proto.svc.poll_next_unpin(&mut cx)
+            }));
+            match polled {
+                Ok(Poll::Ready(Some(event))) => {
+                    out.push(show_event(&event));
+                    if let TransportEvent::SubstreamOpened { substream, .. } = event {
+                        proto.subs.push(substream);
+                    }
+                }
+                Ok(Poll::Ready(None)) => {
+                    out.push("end".into());
+                    break;
+                }
+                Ok(Poll::Pending) =>
+                    if !flag.0.load(Ordering::SeqCst) {
+                        break;
+                    },
+                Err(error) => {
+                    let msg = error
+                        .downcast_ref::<&str>()
+                        .map(|s| s.to_string())
+                        .or_else(|| error.downcast_ref::<String>().cloned())
+                        .unwrap_or_else(|| "?".into());
+                    return Err((out, msg));
+                }
+            }
+        }
+        Ok(out)
+    }
+
+    fn show_state(&mut self) -> String {
+        let base = crate::verif::logical_base().expect("clock");
+        let mut parts = Vec::new();
+        for (i, proto) in self.protos.iter().enumerate() {
+            // connection table with handle activity
+            let mut rows: Vec<(u64, String)> = proto
+                .svc
+                .connections
+                .iter()
+                .map(|(peer, context)| {
+                    let p = crate::verif::peer_index(peer).unwrap_or(u64::MAX);
+                    let h = |h: &ConnectionHandle| {
+                        format!(
+                            "{}{}",
+                            id_num(h.connection_id()),
+                            if h.is_active() { "+" } else { "-" }
+                        )
+                    };
+                    (
+                        p,
+                        format!(
+                            "{}:{}/{}",
+                            p,
+                            h(&context.primary),
+                            context.secondary.as_ref().map(h).unwrap_or_else(|| "-".into())
+                        ),
+                    )
+                })
+                .collect();
+            rows.sort();
+            let mut la: Vec<(usize, u128)> = proto
+                .svc
+                .keep_alive_tracker
+                .last_activity
+                .iter()
+                .map(|((_, c), t)| (id_num(c), t.saturating_duration_since(base).as_millis()))
+                .collect();
+            la.sort();
+            parts.push(format!(
+                "c{i}=[{}] la{i}=[{}] tm{i}={}",
+                rows.into_iter().map(|r| r.1).collect::<Vec<_>>().join(","),
+                la.iter().map(|(c, t)| format!("{c}@{t}")).collect::<Vec<_>>().join(","),
+                proto.svc.keep_alive_tracker.pending_keep_alive_timeouts.len()
+            ));
+        }
+        let alive: Vec<String> = self
+            .tasks
+            .iter_mut()
+            .filter_map(|(c, task)| task.set.try_get_permit().map(|_| c.to_string()))
+            .collect();
+        format!(
+            "{} alive=[{}] nsub={}",
+            parts.join(" "),
+            alive.join(","),
+            self.counter.load(Ordering::Relaxed)
+        )
+    }
+
+    fn mint(&mut self, p: u64, sid: usize, lifetime: Option<Permit>) -> Substream {
+        self.mint.get_or_insert_with(StreamMint::new).substream(
+            peer(p),
+            SubstreamId::from(sid),
+            lifetime,
+        )
+    }
+}
+
+impl VerifBox for KeepAliveBox {
+    fn step(&mut self, line: &str) -> String {
+        if self.poisoned {
+            return "skipped".into();
+        }
+        let handle = self.rt.handle().clone();
+        let _guard = handle.enter();
+        let t: Vec<&str> = line.split_whitespace().collect();
+        let n = |s: &str| s.parse::<usize>().ok();
+        match t.as_slice() {
+            ["cfg", timeout, kinds @ ..] => {
+                let Some(timeout) = n(timeout) else { return "bad-op".into() };
+                if kinds.is_empty() || kinds.len() > NAMES.len() || !self.protos.is_empty() {
+                    return "bad-op".into();
+                }
+                crate::verif::set_logical_clock(true);
+                for (i, kind) in kinds.iter().enumerate() {
+                    let ka = match *kind {
+                        "Y" => SubstreamKeepAlive::Yes,
+                        "N" => SubstreamKeepAlive::No,
+                        _ => return "bad-op".into(),
+                    };
+                    let (svc, tx, mgr_rx) = make_service(
+                        NAMES[i],
+                        self.counter.clone(),
+                        Duration::from_millis(timeout as u64),
+                        ka,
+                    );
+                    self.protos.push(Proto {
+                        svc,
+                        tx,
+                        _mgr_rx: mgr_rx,
+                        ka,
+                        name: ProtocolName::from(NAMES[i]),
+                        subs: Vec::new(),
+                    });
+                }
+                "ok".into()
+            }
+            _ if self.protos.is_empty() => "bad-op".into(),
+            ["est", p, c] => {
+                let (Some(p), Some(c)) = (n(p), n(c)) else { return "bad-op".into() };
+                if !self.used.insert(c) {
+                    return "bad-op".into();
+                }
+                let mut set = ProtocolSet::new(
+                    ConnectionId::from(c),
+                    self.mgr_tx.clone(),
+                    self.counter.clone(),
+                    self.protocols(),
+                );
+                let endpoint = Endpoint::listener(Multiaddr::empty(), ConnectionId::from(c));
+                let res = self.rt.block_on(set.report_connection_established(peer(p as u64), endpoint));
+                self.tasks.insert(
+                    c,
+                    Task {
+                        peer: p as u64,
+                        set,
+                        nego: HashMap::new(),
+                    },
+                );
+                if res.is_ok() { "ok".into() } else { "report-failed".into() }
+            }
+            ["closed", p, c] => {
+                let (Some(p), Some(c)) = (n(p), n(c)) else { return "bad-op".into() };
+                match self.tasks.get(&c) {
+                    Some(task) if task.peer == p as u64 => {}
+                    _ => return "bad-op".into(),
+                }
+                let mut task = self.tasks.remove(&c).expect("task");
+                let res = self
+                    .rt
+                    .block_on(task.set.report_connection_closed(peer(p as u64), ConnectionId::from(c)));
+                while self.mgr_rx.try_recv().is_ok() {}
+                // the task ends: receiver, queued commands and held permits are dropped
+                drop(task);
+                if res.is_ok() { "ok".into() } else { "report-failed".into() }
+            }
+            ["open", i, p] => {
+                let (Some(i), Some(p)) = (n(i), n(p)) else { return "bad-op".into() };
+                let Some(proto) = self.protos.get_mut(i) else { return "bad-op".into() };
+                let target = proto
+                    .svc
+                    .connections
+                    .get(&peer(p as u64))
+                    .map(|context| id_num(context.primary.connection_id()));
+                match proto.svc.open_substream(peer(p as u64)) {
+                    Ok(sid) => format!(
+                        "ok {} {}",
+                        id_num(&sid),
+                        target.map(|c| c.to_string()).unwrap_or_else(|| "?".into())
+                    ),
+                    Err(SubstreamError::PeerDoesNotExist(_)) => "err no-peer".into(),
+                    Err(SubstreamError::ConnectionClosed) => "err closed".into(),
+                    Err(SubstreamError::ChannelClogged) => "err clogged".into(),
+                    Err(other) => format!("err other:{other:?}"),
+                }
+            }
+            ["recv", c] => {
+                let Some(c) = n(c) else { return "bad-op".into() };
+                let Some(task) = self.tasks.get_mut(&c) else { return "gone".into() };
+                let waker = futures::task::noop_waker();
+                let mut cx = Context::from_waker(&waker);
+                match task.set.poll_next_unpin(&mut cx) {
+                    Poll::Ready(Some(ProtocolCommand::OpenSubstream {
+                        protocol,
+                        substream_id,
+                        permit,
+                        keep_alive,
+                        ..
+                    })) => {
+                        let i = NAMES.iter().position(|name| *name == &*protocol).unwrap_or(99);
+                        let out = format!(
+                            "open {} {} {}",
+                            id_num(&substream_id),
+                            i,
+                            if keep_alive == SubstreamKeepAlive::Yes { "Y" } else { "N" }
+                        );
+                        task.nego.insert(id_num(&substream_id), (protocol, permit, keep_alive));
+                        out
+                    }
+                    Poll::Ready(Some(ProtocolCommand::ForceClose)) => "force-close".into(),
+                    Poll::Ready(None) => "none".into(),
+                    Poll::Pending => "empty".into(),
+                }
+            }
+            ["subopen", c, sid] => {
+                let Some(c) = n(c) else { return "bad-op".into() };
+                let Some(task) = self.tasks.get_mut(&c) else { return "unknown".into() };
+                // `*` = the lowest substream id under negotiation
+                let sid = if *sid == "*" { task.nego.keys().min().copied() } else { n(sid) };
+                let Some(sid) = sid else { return "unknown".into() };
+                let Some((protocol, opening_permit, keep_alive)) = task.nego.remove(&sid) else {
+                    return "unknown".into();
+                };
+                let p = task.peer;
+                // src/transport/tcp/connection.rs, handle_negotiated_substream
+                let lifetime_permit = keep_alive.then(|| opening_permit.clone());
+                let substream = self.mint(p, sid, lifetime_permit);
+                let task = self.tasks.get_mut(&c).expect("task");
+                let res = self.rt.block_on(task.set.report_substream_open(
+                    peer(p),
+                    protocol,
+                    Direction::Outbound(SubstreamId::from(sid)),
+                    substream,
+                    opening_permit,
+                ));
+                if res.is_ok() { format!("ok {sid}") } else { "report-failed".into() }
+            }
+            ["subfail", c, sid] => {
+                let Some(c) = n(c) else { return "bad-op".into() };
+                let Some(task) = self.tasks.get_mut(&c) else { return "unknown".into() };
+                let sid = if *sid == "*" { task.nego.keys().min().copied() } else { n(sid) };
+                let Some(sid) = sid else { return "unknown".into() };
+                let Some((protocol, permit, _)) = task.nego.remove(&sid) else {
+                    return "unknown".into();
+                };
+                drop(permit);
+                let res = self.rt.block_on(task.set.report_substream_open_failure(
+                    protocol,
+                    SubstreamId::from(sid),
+                    SubstreamError::ConnectionClosed,
+                ));
+                if res.is_ok() { format!("ok {sid}") } else { "report-failed".into() }
+            }
+            ["subin", c, i] => {
+                let (Some(c), Some(i)) = (n(c), n(i)) else { return "bad-op".into() };
+                if i >= self.protos.len() {
+                    return "unknown".into();
+                }
+                let name = self.protos[i].name.clone();
+                let Some(task) = self.tasks.get_mut(&c) else { return "unknown".into() };
+                // src/transport/tcp/connection.rs, handle_yamux_substream + accept_substream
+                let Some(opening_permit) = task.set.try_get_permit() else {
+                    return "err no-permit".into();
+                };
+                let keep_alive = *task
+                    .set
+                    .protocols_with_keep_alives()
+                    .get(&name)
+                    .expect("protocol to be one of the keys");
+                let p = task.peer;
+                let lifetime_permit = keep_alive.then(|| opening_permit.clone());
+                let substream = self.mint(p, 0, lifetime_permit);
+                let task = self.tasks.get_mut(&c).expect("task");
+                let res = self.rt.block_on(task.set.report_substream_open(
+                    peer(p),
+                    name,
+                    Direction::Inbound,
+                    substream,
+                    opening_permit,
+                ));
+                if res.is_ok() { "ok".into() } else { "report-failed".into() }
+            }
+            ["dropsub", i, k] => {
+                let (Some(i), Some(k)) = (n(i), n(k)) else { return "bad-op".into() };
+                match self.protos.get_mut(i) {
+                    Some(proto) if k < proto.subs.len() => {
+                        drop(proto.subs.remove(k));
+                        "ok".into()
+                    }
+                    _ => "unknown".into(),
+                }
+            }
+            ["adv", ms] => {
+                let Some(ms) = n(ms) else { return "bad-op".into() };
+                self.rt.block_on(tokio::time::advance(Duration::from_millis(ms as u64)));
+                "ok".into()
+            }
+            ["next"] => {
+                let mut events = Vec::new();
+                for i in 0..self.protos.len() {
+                    match self.drain(i) {
+                        Ok(evs) => events.push(format!("e{i}=[{}]", evs.join(","))),
+                        Err((evs, msg)) => {
+                            self.poisoned = true;
+                            let class = if msg.contains("assertion failed") {
+                                "debug-assert".to_string()
+                            } else {
+                                format!("other:{msg}")
+                            };
+                            return format!("panic {} e{i}=[{}]", class, evs.join(","));
+                        }
+                    }
+                }
+                // `show_connections` is the C08 view; C09 prints activity flags as well
+                let _ = show_connections;
+                format!("{} {}", events.join(" "), self.show_state())
+            }
+            _ => "bad-op".into(),
+        }
+    }
+}
+
+impl Drop for KeepAliveBox {
+    fn drop(&mut self) {
+        crate::verif::set_logical_clock(false);
+    }
+}
